@@ -1,9 +1,13 @@
 JOBS = []
 for tag, ccf in (("le", []), ("be", ["--big-endian"])):
-    JOBS.append(dict(name="arr.binary." + tag, props=["C17", "C06", "C01"], kind="B",
-        bound="0..2 elements with symbolic values, element sizes 1/2/4/8, both formats, host %s-endian; unwinding assertions on" % ("little" if tag == "le" else "big"),
-        harness="h_arr.c", entry="h_array_binary", contracts=["common.h"], cc_flags=ccf, loops=False,
-        defines=["NEL=2"], cbmc_flags=["--unwind", "14", "--unwinding-assertions"], timeout=3000, cost=40, mem_gb=24,
-        what="real array result chain: header, byte count, element byte order, item accounting"))
+    for which in range(4):
+        for fmt in (0, 1):
+            for count in (0, 1, 3):
+                JOBS.append(dict(name="arr.binary.%s.t%d.f%d.n%d" % (tag, which, fmt, count), props=["C17", "C06", "C01"], kind="B",
+                    bound="%d elements of size %d with symbolic values, format %s, host %s-endian; unwinding assertions on" % (count, (1, 2, 4, 8)[which], "NORMAL" if fmt else "SWAPPED", "little" if tag == "le" else "big"),
+                    harness="h_arr.c", entry="h_array_binary", contracts=["common.h"], cc_flags=ccf, loops=False,
+                    defines=["WHICH=%d" % which, "FMTSEL=%d" % fmt, "COUNT=%d" % count],
+                    cbmc_flags=["--unwind", "30", "--unwinding-assertions"], timeout=900, cost=3, mem_gb=12,
+                    what="real array result chain: header, byte count, element byte order, item accounting"))
 JOBS.append(dict(name="arr.swap", props=["C17"], kind="P", harness="h_arr.c", entry="h_swap", contracts=["common.h"], loops=False, timeout=600,
     what="SCPI_Swap16/32/64 are the byte reversals (loop-free, full domain)"))
